@@ -102,8 +102,9 @@ Definition peel_ok (g : graph) : bool :=
 
 (* decision procedure: from every listed function the longest path is finite *)
 Definition acyclic (g : graph) : bool :=
-  peel_ok g &&
-  forallb (fun n => match wheight g unit_cost (fuel_of g) n with Some _ => true | None => false end) (keys g).
+  if peel_ok g
+  then forallb (fun n => match wheight g unit_cost (fuel_of g) n with Some _ => true | None => false end) (keys g)
+  else false.
 
 Definition wh (g : graph) (fs : node -> Z) (n : node) : Z :=
   match wheight g fs (fuel_of g) n with Some c => c | None => 0 end.
